@@ -1,6 +1,6 @@
 (* C14 — lemmas, part 2: matching and filtering. *)
 From Coq Require Import ZArith List Bool Lia.
-From FV Require Import Generated.Consts C14.Model C14.ProofsDict.
+From FV Require Import Generated.Consts C14.Model C14.Spec C14.ProofsDict.
 Import ListNotations.
 Open Scope Z_scope.
 
